@@ -130,16 +130,19 @@ class Check:
             for o in unlisted:
                 print(f"  {o.where}: [{o.rule}] {o.msg}\n      key: {o.key}")
             print(f"VIOLATION property={self.pid} replay={replay}")
-        # inventory guard: every obligation that was decided on the pinned tree must still be produced (holding or failing).  One that has
-        # silently disappeared means a rule no longer sees its construct (the analysis went blind there) -- not a verdict, so fail closed.
-        if not unlisted and os.environ.get("VERIF_KEY_INVENTORY", "1") != "0":
+        # inventory: every obligation that was decided on the pinned tree should still be produced (holding or failing).  One that has
+        # disappeared means a rule no longer finds its construct on this tree: it is listed (stdout NOTE + evidence `not_decided`), never
+        # silently dropped; the self-test treats such a note on the unchanged tree or on a behaviour-preserving rewrite as a failure.
+        self.vanished = []
+        if os.environ.get("VERIF_KEY_INVENTORY", "1") != "0":
             inv = load_inventory().get(self.pid)
             if inv:
                 have = {o.key for o in self.obligations}
-                gone = [k for k in inv if k not in have]
-                if gone:
-                    raise AnalysisError(f"{len(gone)} obligation(s) decided on the pinned tree are no longer produced (the rule does not find its construct any more): "
-                                        + "; ".join(gone[:4]) + (" ..." if len(gone) > 4 else ""))
+                self.vanished = [k for k in inv if k not in have]
+                for k in self.vanished[:10]:
+                    print(f"NOTE: obligation of the pinned tree not produced on this tree (construct not found): {k}")
+                if self.vanished:
+                    self.not_decided.append(f"{len(self.vanished)} obligation(s) decided on the pinned tree could not be located on this tree: " + "; ".join(self.vanished[:6]))
         self._write_evidence(len(unlisted), listed, stale)
         n = len(self.obligations)
         print(f"{self.pid} [{self.tier}] obligations={n} discharged={n - len(failing)} "
